@@ -60,7 +60,9 @@ type CScenario struct {
 	Threads [][]CReq `json:"threads"`
 }
 
-func att1(k int, s, t uint64) CReq { return CReq{Kind: "att", Keys: []int{k}, S: []uint64{s}, T: []uint64{t}} }
+func att1(k int, s, t uint64) CReq {
+	return CReq{Kind: "att", Keys: []int{k}, S: []uint64{s}, T: []uint64{t}}
+}
 func attsN(keys []int, s, t uint64) CReq {
 	r := CReq{Kind: "atts", Keys: keys}
 	for range keys {
@@ -70,8 +72,8 @@ func attsN(keys []int, s, t uint64) CReq {
 	return r
 }
 func prop1(k int, slot uint64) CReq { return CReq{Kind: "prop", Keys: []int{k}, Slot: slot} }
-func sign1(k int) CReq             { return CReq{Kind: "sign", Keys: []int{k}} }
-func signsN(keys ...int) CReq      { return CReq{Kind: "signs", Keys: keys} }
+func sign1(k int) CReq              { return CReq{Kind: "sign", Keys: []int{k}} }
+func signsN(keys ...int) CReq       { return CReq{Kind: "signs", Keys: keys} }
 
 type callRec struct {
 	thread, idx int
@@ -82,12 +84,13 @@ type callRec struct {
 
 // concEnv is the per-process environment shared by executions.
 type concEnv struct {
-	rules    *standardrules.Service
-	dir      string
-	nexec    int
-	keyCtr   uint64
-	approver rules.Service // approve-all stub (no store access), for lock-only scenarios
+	rules        *standardrules.Service
+	dir          string
+	nexec        int
+	keyCtr       uint64
+	approver     rules.Service // approve-all stub (no store access), for lock-only scenarios
 	lastVerdicts string
+	cancel       context.CancelFunc
 }
 
 func newConcEnv() (*concEnv, error) {
@@ -101,17 +104,21 @@ func newConcEnv() (*concEnv, error) {
 
 func (e *concEnv) reopen() error {
 	if e.rules != nil {
-		_ = e.rules.Close(context.Background())
-		_ = os.RemoveAll(e.dir)
+		e.close()
 	}
 	e.dir = rig.Scratch("conc")
 	var err error
-	e.rules, err = standardrules.New(context.Background(), standardrules.WithStoragePath(e.dir))
+	var ctx context.Context
+	ctx, e.cancel = context.WithCancel(context.Background())
+	e.rules, err = standardrules.New(ctx, standardrules.WithStoragePath(e.dir))
 	return err
 }
 
 func (e *concEnv) close() {
 	_ = e.rules.Close(context.Background())
+	if e.cancel != nil {
+		e.cancel()
+	}
 	_ = os.RemoveAll(e.dir)
 }
 
@@ -580,18 +587,18 @@ func concFinish(run *ev.Run, results []shardResult, err error, rule string) int 
 		}
 	}
 	run.Coverage = map[string]any{
-		"evaluations":          execs,
-		"distinct_nontrivial":  nontrivial,
-		"rule":                 rule,
-		"samples":              samples.List(),
-		"exhaustive":           !budget && uncontrolled == 0,
-		"scenarios":            len(results),
-		"executions":           execs,
-		"bound_completed":      boundDone,
-		"max_points":           maxPoints,
-		"deadlocks":            deadlocks,
-		"uncontrolled":         uncontrolled,
-		"per_scenario":         per,
+		"evaluations":         execs,
+		"distinct_nontrivial": nontrivial,
+		"rule":                rule,
+		"samples":             samples.List(),
+		"exhaustive":          !budget && uncontrolled == 0,
+		"scenarios":           len(results),
+		"executions":          execs,
+		"bound_completed":     boundDone,
+		"max_points":          maxPoints,
+		"deadlocks":           deadlocks,
+		"uncontrolled":        uncontrolled,
+		"per_scenario":        per,
 	}
 	return run.Finish()
 }
